@@ -9,8 +9,8 @@ class C08(FloorProp):
 
     def gen(self, rng, index, tier):
         from .. import floorsim
-        # every third run: parallel single-slot stations behind one holder (clause f, idle-longest choice)
-        return floorsim.gen_case(rng, 'c08f' if index % 3 == 2 else 'c08')
+        # every second run: parallel single-slot stations behind one holder (clause f, idle-longest choice)
+        return floorsim.gen_case(rng, 'c08f' if index % 2 else 'c08')
 
 
 PROP = C08()
